@@ -39,6 +39,8 @@ func pollingEffects(c *core.Ctx, R string) {
 			{name: "SetWritable(true)", match: mNameBool("SetWritable", 0, true), on: []core.Guard{won}},
 			{name: "Emit(ready)", match: mNameStr("Emit", 0, "ready"), on: []core.Guard{won}, after: "SetWritable(true)"},
 			{name: "buffered-close→Send(NOOP)", match: mSendsPacket("noop"), on: []core.Guard{won, writableTrue(), gNilFieldLoad("polling.shouldClose", true)}, after: "Emit(ready)"},
+			// a poll installed while the transport was closing: nothing else will answer it (fix 46aa1a3)
+			{name: "closed-meanwhile→Send(NOOP)", match: mSendsPacket("noop"), on: []core.Guard{won, writableTrue(), gCallStrEq(".ReadyState", "closed")}, after: "Emit(ready)"},
 		})
 		if k := c.KidOf(R, u, "onClose"); k != nil {
 			requireEffects(c, R, k, []effect{
